@@ -270,15 +270,22 @@ def judge(case, obs, paths):
     return ("select:mismatch:" + "+".join(kinds), "expected %s, got %s" % (json.dumps(want), json.dumps(obs)))
 
 
+def sig_class(sig):
+    """violations are minimised within their class (exception kind / wrong selection / glob) and named after the minimal case"""
+    return sig.split(":")[0] + (":" + sig.split(":")[1] if sig.startswith("exception:") else "")
+
+
 def shrink(case, sig):
-    """greedy structural minimisation keeping the same oracle signature"""
+    """greedy structural minimisation keeping the same class of oracle failure"""
+    cls = sig_class(sig)
+
     def still(c):
         try:
             o, p = run_case(c)
             j = judge(c, o, p)
         except Exception:
             return False
-        return j is not None and j[0] == sig
+        return j is not None and sig_class(j[0]) == cls
 
     def candidates(c):
         f = c["filter"]
@@ -449,6 +456,7 @@ def check(run):
             continue
         todo.append({"tree": tree, "filter": f, "report": report,
                      "via_argparse": G.argparse_ok(f) and rng.random() < 0.8})
+    shrunk = 0
     for i, case in enumerate(todo):
         obs, paths = run_case(case)
         f = case["filter"]
@@ -475,11 +483,15 @@ def check(run):
             run.count("proper_nonempty_selection")
         hit = judge(case, obs, paths)
         if hit:
-            small = shrink(case, hit[0])
-            so, sp = run_case(small)
-            run.violation(hit[0], (judge(small, so, sp) or hit)[1],
-                          {"kind": "select", "tree": small["tree"], "filter": small["filter"], "report": small.get("report"),
-                           "via_argparse": small.get("via_argparse", False), "observed": so})
+            run.count("oracle_failures")
+            if shrunk < 8:       # the first failures are minimised and reported (distinct signatures); the others are counted
+                shrunk += 1
+                small = shrink(case, hit[0])
+                so, sp = run_case(small)
+                hit = judge(small, so, sp) or hit
+                run.violation(hit[0], hit[1],
+                              {"kind": "select", "tree": small["tree"], "filter": small["filter"], "report": small.get("report"),
+                               "via_argparse": small.get("via_argparse", False), "observed": so})
         if "exc" in obs:
             run.tie_broken("lcc_select = observed selection", case={"filter": f, "tree": case["tree"]}, impl=obs,
                            detail="the implementation raised; the model (fixed code) is total")
